@@ -166,41 +166,25 @@ class RegExp:
         """
         Test if the pattern matches the string.
 
+        Same protocol as exec (RegExpBuiltinExec): lastIndex is read and
+        written exactly as exec does.
+
         Args:
             string: The string to test
 
         Returns:
             True if there's a match, False otherwise
         """
-        vm = self._create_vm()
-
-        if self._sticky:
-            result = vm.match(string, self.lastIndex)
-            if result:
-                if self._global:
-                    self.lastIndex = (
-                        result.index + len(result[0]) if result[0] else result.index
-                    )
-                return True
-            if self._global:
-                self.lastIndex = 0
-            return False
-
-        result = vm.search(string, self.lastIndex if self._global else 0)
-        if result:
-            if self._global:
-                self.lastIndex = (
-                    result.index + len(result[0]) if result[0] else result.index + 1
-                )
-            return True
-
-        if self._global:
-            self.lastIndex = 0
-        return False
+        return self.exec(string) is not None
 
     def exec(self, string: str) -> Optional[MatchResult]:
         """
-        Execute a search for a match.
+        Execute a search for a match (ECMAScript RegExpBuiltinExec).
+
+        Global and sticky regexes start at lastIndex, leave the end of the
+        match in lastIndex (also for an empty match) and reset it to 0 on
+        failure; sticky regexes match only at lastIndex; other regexes ignore
+        and preserve lastIndex.
 
         Args:
             string: The string to search
@@ -209,51 +193,41 @@ class RegExp:
             Match array or None if no match
         """
         vm = self._create_vm()
+        uses_last_index = self._global or self._sticky
+
+        if not uses_last_index:
+            return vm.search(string, 0)
 
         # In unicode mode, lastIndex is a UTF-16 index
         # Convert to code point index for internal matching
-        if self._unicode and (self._global or self._sticky):
-            cp_start = _utf16_to_codepoint_index(string, self.lastIndex)
-            if cp_start is None:
+        length = _utf16_len(string) if self._unicode else len(string)
+        if self.lastIndex > length:
+            self.lastIndex = 0
+            return None
+        if self._unicode:
+            start_pos = _utf16_to_codepoint_index(string, self.lastIndex)
+            if start_pos is None:
                 # Invalid UTF-16 index (e.g., in middle of surrogate pair)
                 self.lastIndex = 0
                 return None
-            start_pos = cp_start
         else:
-            start_pos = self.lastIndex if (self._global or self._sticky) else 0
+            start_pos = self.lastIndex
 
         if self._sticky:
             result = vm.match(string, start_pos)
-            if result:
-                if self._global or self._sticky:
-                    end_cp = (
-                        result.index + len(result[0]) if result[0] else result.index
-                    )
-                    if self._unicode:
-                        self.lastIndex = _codepoint_to_utf16_index(string, end_cp)
-                    else:
-                        self.lastIndex = end_cp
-                return result
-            if self._global or self._sticky:
-                self.lastIndex = 0
+        else:
+            result = vm.search(string, start_pos)
+
+        if result is None:
+            self.lastIndex = 0
             return None
 
-        result = vm.search(string, start_pos)
-
-        if result:
-            if self._global:
-                end_cp = (
-                    result.index + len(result[0]) if result[0] else result.index + 1
-                )
-                if self._unicode:
-                    self.lastIndex = _codepoint_to_utf16_index(string, end_cp)
-                else:
-                    self.lastIndex = end_cp
-            return result
-
-        if self._global:
-            self.lastIndex = 0
-        return None
+        end_cp = result.index + len(result[0] or "")
+        if self._unicode:
+            self.lastIndex = _codepoint_to_utf16_index(string, end_cp)
+        else:
+            self.lastIndex = end_cp
+        return result
 
 
 def match(pattern: str, string: str, flags: str = "") -> Optional[MatchResult]:
